@@ -920,6 +920,10 @@ MUTANTS = [
            expect_rule="task/removed-before-called"),
     Mutant("memory-worker-dequeues-only-when-the-task-returned-normally", MEM, '        worker._pending.pop(0)\n        peek()\n',
            "        try:\n            peek()\n        except BaseException:\n            raise\n        else:\n            del worker._pending[0]\n", expect_rule="task/removed-before-called"),
+    # ---- refactor round 4 shapes: the task / completion closures as private callable classes, dispatch through functools.partial
+    Mutant("callable-object-job-recycles-on-the-worker-thread", TEAM, '        not_none_worker = worker\n        self._busyCount += 1\n\n        @worker.do\n        def doWork() -> None:\n            try:\n                task()\n            except BaseException:\n                self._logException()\n\n            @self._coordinator.do\n            def idleAndPending() -> None:\n                self._busyCount -= 1\n                self._recycleWorker(not_none_worker)\n', '        self._busyCount += 1\n        worker.do(_Job(self, worker, task))\n', more=[(TEAM, "@implementer(IWorker)\nclass Team:\n", 'class _Done:\n    def __init__(self, pool, worker):\n        self.pool = pool\n        self.worker = worker\n\n    def __call__(self):\n        self.pool._busyCount -= 1\n        self.pool._recycleWorker(self.worker)\n\n\nclass _Job:\n    def __init__(self, pool, worker, task):\n        self.pool = pool\n        self.worker = worker\n        self.task = task\n\n    def __call__(self):\n        try:\n            self.task()\n        except BaseException:\n            self.pool._logException()\n        _Done(self.pool, self.worker)()\n\n\n@implementer(IWorker)\nclass Team:\n')]),
+    Mutant("partial-dispatches-shrink-on-the-caller-thread", TEAM, "        self._coordinator.do(lambda: self._quitIdlers(n))\n", "        partial(self._quitIdlers, n)()\n",
+           more=[(TEAM, "from collections import deque\n", "from collections import deque\nfrom functools import partial\n")]),
 ]
 SILENT = [
     Silent("lambda-instead-of-decorator", TEAM,
@@ -953,4 +957,8 @@ SILENT = [
     Silent("job-and-completion-closures-built-by-a-private-factory", TEAM, '        not_none_worker = worker\n        self._busyCount += 1\n\n        @worker.do\n        def doWork() -> None:\n            try:\n                task()\n            except BaseException:\n                self._logException()\n\n            @self._coordinator.do\n            def idleAndPending() -> None:\n                self._busyCount -= 1\n                self._recycleWorker(not_none_worker)\n', '        self._busyCount += 1\n        worker.do(self._jobFor(worker, task))\n\n    def _jobFor(self, worker, task):\n        def backToThePool() -> None:\n            self._busyCount -= 1\n            self._recycleWorker(worker)\n\n        def job() -> None:\n            try:\n                task()\n            except BaseException:\n                self._logException()\n            self._coordinator.do(backToThePool)\n        return job\n'),
     Silent("memory-worker-calls-the-popped-item", MEM, '        worker._pending.pop(0)\n        peek()\n', "        job = worker._pending.pop(0)\n        job()\n"),
     Silent("memory-worker-deletes-the-head-then-calls", MEM, '        worker._pending.pop(0)\n        peek()\n', "        del worker._pending[0]\n        peek()\n"),
+    Silent("task-and-completion-closures-as-private-callable-classes", TEAM, '        not_none_worker = worker\n        self._busyCount += 1\n\n        @worker.do\n        def doWork() -> None:\n            try:\n                task()\n            except BaseException:\n                self._logException()\n\n            @self._coordinator.do\n            def idleAndPending() -> None:\n                self._busyCount -= 1\n                self._recycleWorker(not_none_worker)\n', '        self._busyCount += 1\n        worker.do(_Job(self, worker, task))\n', more=[(TEAM, "@implementer(IWorker)\nclass Team:\n", 'class _Done:\n    def __init__(self, pool, worker):\n        self.pool = pool\n        self.worker = worker\n\n    def __call__(self):\n        self.pool._busyCount -= 1\n        self.pool._recycleWorker(self.worker)\n\n\nclass _Job:\n    def __init__(self, pool, worker, task):\n        self.pool = pool\n        self.worker = worker\n        self.task = task\n\n    def __call__(self):\n        try:\n            self.task()\n        except BaseException:\n            self.pool._logException()\n        self.pool._coordinator.do(_Done(self.pool, self.worker))\n\n\n@implementer(IWorker)\nclass Team:\n')]),
+    Silent("dispatch-through-functools-partial", TEAM, "        self._coordinator.do(lambda: self._quitIdlers(n))\n", "        self._coordinator.do(partial(self._quitIdlers, n))\n",
+           more=[(TEAM, "        self._coordinator.do(lambda: self._coordinateThisTask(task))\n", "        self._coordinator.do(partial(self._coordinateThisTask, task))\n"),
+                 (TEAM, "from collections import deque\n", "from collections import deque\nfrom functools import partial\n")]),
 ]
